@@ -36,6 +36,7 @@ type carrier struct {
 	in       chan []byte   // packets for ReadFrom
 	readErr  chan struct{} // closed: ReadFrom fails
 	writeErr bool          // next WriteTo fails
+	writeBlock bool        // WriteTo blocks until the carrier is closed (a write on a dead transport), then fails
 	out      [][]byte
 	closes   int
 	closedCh chan struct{}
@@ -65,6 +66,11 @@ func (c *carrier) ReadFrom(p []byte) (int, net.Addr, error) {
 
 func (c *carrier) WriteTo(p []byte, a net.Addr) (int, error) {
 	c.mu.Lock()
+	if c.writeBlock {
+		c.mu.Unlock()
+		<-c.closedCh
+		return 0, errors.New("use of closed carrier")
+	}
 	defer c.mu.Unlock()
 	select {
 	case <-c.closedCh:
@@ -106,7 +112,7 @@ type cspec struct {
 	DialDelay int64  `json:"dialdelay"` // ns
 	Up        int    `json:"up"`        // packets written by the user while this carrier is healthy
 	Down      int    `json:"down"`      // packets delivered by the carrier
-	Fail      string `json:"fail"`      // read | write | both | none (none: only for the carrier alive at Close)
+	Fail      string `json:"fail"`      // read | write | both | read-while-write-blocked | none / close-while-write-blocked (only for the carrier alive at Close)
 	UpDuringDial int `json:"updial,omitempty"` // packets written while the dial is pending
 }
 
@@ -288,10 +294,24 @@ func runRedial(t *testing.T, c rcase) (err error) {
 				cr.mu.Unlock()
 				close(cr.readErr)
 				rc.WriteTo([]byte("trigger"), nil)
+			case "read-while-write-blocked", "close-while-write-blocked":
+				// the writer is inside a WriteTo that only returns once the carrier is closed ...
+				cr.mu.Lock()
+				cr.writeBlock = true
+				cr.mu.Unlock()
+				w, e := rc.WriteTo([]byte("trigger"), nil)
+				if e != nil || w != 7 {
+					fail("WriteTo returned (%d,%v) while the connection is open", w, e)
+				}
+				synctest.Wait()
+				// ... when the read side fails (or, for the last carrier, when the user closes the connection)
+				if cs.Fail == "read-while-write-blocked" {
+					close(cr.readErr)
+				}
 			case "none":
 			}
 			synctest.Wait()
-			if cs.Fail != "none" && !cr.isClosed() && cs.DialDelay >= 0 {
+			if cs.Fail != "none" && cs.Fail != "close-while-write-blocked" && !cr.isClosed() && cs.DialDelay >= 0 {
 				// the failed carrier must be closed once the loop has moved on (it is closed before the next dial)
 				time.Sleep(time.Nanosecond)
 				synctest.Wait()
@@ -365,19 +385,19 @@ func TestVerifC17Redial(t *testing.T) {
 				DialDelay: rapid.SampledFrom([]int64{0, 0, 1, int64(time.Second), int64(3 * time.Second)}).Draw(rt, "delay"),
 				Up:        rapid.IntRange(0, 4).Draw(rt, "up"),
 				Down:      rapid.IntRange(0, 4).Draw(rt, "down"),
-				Fail:      rapid.SampledFrom([]string{"read", "write", "write", "both"}).Draw(rt, "fail"),
+				Fail:      rapid.SampledFrom([]string{"read", "write", "write", "both", "read-while-write-blocked"}).Draw(rt, "fail"),
 			}
 			if cs.DialDelay > 0 {
 				cs.UpDuringDial = rapid.IntRange(0, 2).Draw(rt, "updial")
 			}
 			if i == n-1 && rapid.Bool().Draw(rt, "lastalive") {
-				cs.Fail = "none"
+				cs.Fail = rapid.SampledFrom([]string{"none", "none", "close-while-write-blocked"}).Draw(rt, "lastfail")
 			}
 			labels["fail="+cs.Fail] = true
 			c.Carriers = append(c.Carriers, cs)
 		}
 		last := c.Carriers[n-1]
-		if last.Fail != "none" {
+		if last.Fail != "none" && last.Fail != "close-while-write-blocked" {
 			c.DialError = rapid.Bool().Draw(rt, "dialerror")
 		}
 		c.CloseTwice = rapid.Bool().Draw(rt, "closetwice")
